@@ -353,7 +353,8 @@ class CTMCCredit(CTMCGrid):
                 eps = min(abs(l - a) / 2, abs(a + h) / 2)
                 if symmetric_grid:
                     # symmetric axes -> this is a current limitation in the code with the pairing function in Z^d
-                    axis_values = [l, a - eps, a + eps, -h, 0, h, -a - eps, -a + eps, r]
+                    # the mirrored states must stay below the right end of the axis
+                    axis_values = [l, a - eps, a + eps, -h, 0, h, -a - eps, -a + eps, max(r, -l)]
                 else:
                     axis_values = [l, a - eps, a + eps, -h, 0, h, r]
                 axis = np.array(axis_values)
